@@ -163,6 +163,9 @@ def prepare(variant):
     lockfile = os.path.join(root, "Cargo.lock")
     if not os.path.exists(lockfile):
         shutil.copy(os.path.join(HARNESS, "Cargo.lock"), lockfile)
+    # keep a SHARED lock while the copy is in use: other checks may use it
+    # concurrently, and only the last user removes it
+    fcntl.flock(lock, fcntl.LOCK_SH)
     return {
         "dir": root,
         "target_dir": os.path.join(HARNESS, "target-arch", variant),
@@ -255,13 +258,24 @@ def prepare_loom():
     lockfile = os.path.join(root, "Cargo.lock")
     if not os.path.exists(lockfile):
         shutil.copy(os.path.join(HARNESS, "Cargo.lock"), lockfile)
+    fcntl.flock(lock, fcntl.LOCK_SH)
     return {"dir": root, "target_dir": os.path.join(HARNESS, "target-arch", variant), "expect": "", "rewrites": counts, "_lock": lock}
 
 
-def cleanup(variant):
+def cleanup(variant, info=None):
     """Removes the scratch copy (its build output under
-    /verif/harness/target-arch/<variant> is a cache and stays)."""
+    /verif/harness/target-arch/<variant> is a cache and stays) unless another
+    check still holds a shared lock on it; the last user removes it."""
+    lock = info.get("_lock") if info else None
+    if lock is not None:
+        try:
+            fcntl.flock(lock, fcntl.LOCK_EX | fcntl.LOCK_NB)
+        except OSError:
+            return False
     shutil.rmtree(os.path.join(SCRATCH_ROOT, variant), ignore_errors=True)
+    if lock is not None:
+        fcntl.flock(lock, fcntl.LOCK_UN)
+    return True
 
 
 if __name__ == "__main__":
